@@ -26,6 +26,7 @@ type Profile struct {
 	BadNMPct  int
 	AllowMPoolEM bool
 	TwinUntagged bool // W1: a stop-tag call in which no rule sets the tag is repeated through the untagged variant and compared
+	PresetTagPct int // W1: % of stop-tag calls that reuse the previous call's Stag object without lowering it
 	LongHistPct int // W1: % of runs that are one long history (70-140 calls) of a single entry point on one engine
 	EvolvePct int // W1: % of runs whose rule set changes between calls (incremental builds, removals)
 }
@@ -297,6 +298,9 @@ func (g *G) GenCall(p *Profile, rules []*RuleDef, idx int) *Call {
 		c.OptName = g.Pct(50)
 	}
 	c.UseTag = HasTag(c.Method)
+	if c.UseTag && p.PresetTagPct > 0 {
+		c.PresetTag = g.Pct(p.PresetTagPct)
+	}
 	faulty := g.Pct(p.FaultPct)
 	gateLeft := g.Pct(p.GatePct)
 	for _, r := range rules {
